@@ -120,7 +120,11 @@ func bufferWriterAudit(c *Ctx) {
 				return false
 			}
 			ia, ok := st.Addr.(*ssa.IndexAddr)
-			return ok && an.IsLoadOfField(ia.X, "Buffer.buffer")
+			if !ok {
+				return false
+			}
+			isB, _ := sliceOfField(P, ia.X, "Buffer.buffer")
+			return isB
 		}) {
 			st := in.(*ssa.Store)
 			good := name == "(*Buffer).cleanupLogic" && isNilConst(st.Val)
